@@ -63,21 +63,21 @@ type Violation struct {
 }
 
 type Engine struct {
-	Prog    *ssa.Program
-	Solver  *Solver
-	Trace   bool
-	HPkg    *ssa.Package
-	Harness string
-	Unwind  int
-	MaxPath int
-	Tier    int
-	Deadline time.Time
-	Replace  map[string]string // full name of a replaced function -> harness function (engine only)
-	Replaced map[string]int
-	netipZ   map[int]*value
-	initStart int
+	Prog             *ssa.Program
+	Solver           *Solver
+	Trace            bool
+	HPkg             *ssa.Package
+	Harness          string
+	Unwind           int
+	MaxPath          int
+	Tier             int
+	Deadline         time.Time
+	Replace          map[string]string // full name of a replaced function -> harness function (engine only)
+	Replaced         map[string]int
+	uniq             []*value // unique.Make table (engine lifetime)
+	initStart        int
 	ShardIdx, ShardN int
-	shardUsed bool
+	shardUsed        bool
 
 	globals  map[*ssa.Global]*value
 	pristine map[*ssa.Global]value
@@ -85,23 +85,24 @@ type Engine struct {
 	initMode bool
 
 	// per path
-	ctx      *Ctx
-	pc       []*Term
-	dec      []int
-	cursor   int
-	pending  [][]int
-	draws    []*Draw
-	events   []Event
-	loops    map[*ssa.BasicBlock]int
-	depth    int
-	sync     map[*value]*syncState
-	sched    *sched
-	nowLast  *Term
-	pathCov  []string
-	ghostLog []string
-	atoms    map[*value]value
-	timers   map[*value]*chanV
-	afterFuncs []*afterFunc
+	ctx                 *Ctx
+	pc                  []*Term
+	dec                 []int
+	cursor              int
+	pending             [][]int
+	draws               []*Draw
+	events              []Event
+	loops               map[*ssa.BasicBlock]int
+	depth               int
+	sync                map[*value]*syncState
+	syncMaps            map[*value]*mapV
+	sched               *sched
+	nowLast             *Term
+	pathCov             []string
+	ghostLog            []string
+	atoms               map[*value]value
+	timers              map[*value]*chanV
+	afterFuncs          []*afterFunc
 	deadlockIsViolation bool
 
 	// stats
@@ -1092,6 +1093,7 @@ func (e *Engine) resetPath(dec []int) {
 	e.loops = map[*ssa.BasicBlock]int{}
 	e.depth = 0
 	e.sync = map[*value]*syncState{}
+	e.syncMaps = map[*value]*mapV{}
 	e.nowLast = nil
 	e.atoms = nil
 	e.timers = map[*value]*chanV{}
@@ -1123,6 +1125,9 @@ func deepCopy(v value, memo map[*value]*value) value {
 		}
 		if n, ok := memo[v]; ok {
 			return n
+		}
+		if _, shared := sharedPtrs.Load(v); shared {
+			return v
 		}
 		n := new(value)
 		memo[v] = n
